@@ -183,7 +183,7 @@ def _max_shape_id(c):
     c.ensures("post.is_an_id_or_zero", z3.Or(r == 0, u.exists_eq(r)))
 
 
-@contract("C06", "C06.oxml.shapes.groupshape.CT_GroupShape._next_shape_id.fget", replay=_replay_shape_ids("next"), timeout_ms=60000)
+@contract("C06", "C06.oxml.shapes.groupshape.CT_GroupShape._next_shape_id.fget", replay=_replay_shape_ids("next"), timeout_ms=150000)
 def _next_shape_id_elm(c):
     """element-level allocator (groups, freeforms): result >= 1, differs from every numeric @id, never
     raises and never falls through (pigeonhole stated as an assumption)."""
